@@ -23,7 +23,7 @@ for p in props:
         "evidence_file": f"/verif/evidence/{pid}.json",
         "replay_cmd_template": f"./bin/check {pid} --replay {{path}}",
         "engine": "pyvc",
-        "level_claimed": {"category": m.get("category", "proof"), "text": m["text"], "design_ref": m.get("design_ref", f"DESIGN.md section 7 {pid}")},
+        "level_claimed": {"category": m.get("category", "proof"), "text": m["text"], "design_ref": m.get("design_ref", f"DESIGN.md section 10.2 (as built) and section 7 {pid} (plan)")},
         "level_note": m["note"],
         "technique": m.get("technique", "contract-based deductive verification: VCs generated from the real AST by pyvc, discharged by z3/cvc5"),
     })
